@@ -257,7 +257,7 @@ func (r *Runner) Step(o Op) Reply {
 		r.autoIdle = o.Proc == "autoidle:1"
 		if r.tr != nil {
 			r.tr.mu.Lock()
-			r.tr.yield = !r.autoIdle
+			r.tr.yield = o.Proc == "autoidle:0" // ("autoidle:2": no waiting, no dumps, and no pauses either)
 			r.tr.mu.Unlock()
 		}
 		return Reply{Kind: "st"}
